@@ -12,6 +12,7 @@ import (
 	"github.com/elementsproject/peerswap/policy"
 	"pgregory.net/rapid"
 
+	"verifharness/pbt"
 	"verifharness/stats"
 )
 
@@ -69,13 +70,18 @@ func modelAnswers(m *polModel, probe []string) string {
 	return sb.String()
 }
 
-func TestC25PolicyStateMachine(t *testing.T) {
+func TestC25PolicyStateMachine(t *testing.T) { propC25PolicyStateMachine(t) }
+
+// FuzzC25PolicyStateMachine drives the same property body with Go's coverage-guided fuzzer (thorough tier).
+func FuzzC25PolicyStateMachine(f *testing.F) { propC25PolicyStateMachine(f) }
+
+func propC25PolicyStateMachine(t testing.TB) {
 	col := stats.Get("C25.policy")
 	dir := fastTempDir("c25")
 	defer os.RemoveAll(dir)
 	n := 0
 	probe := append(pkPool(), fmt.Sprintf("03%064x", 99))
-	rapid.Check(t, func(t *rapid.T) {
+	pbt.Run(t, func(t *rapid.T) {
 		n++
 		path := filepath.Join(dir, fmt.Sprintf("policy-%d.conf", n))
 		defer os.Remove(path)
